@@ -85,10 +85,118 @@ func dumpValue(path string, v reflect.Value, out *[]string, depth int) {
 	}
 }
 
-func dumpQuery(q *search.SearchQuery) []string {
-	var out []string
-	dumpValue("q", reflect.ValueOf(q), &out, 0)
+func dumpConstraint(c *search.Constraint) []string {
+	out := make([]string, 0, 64)
+	dumpValue("q.Constraint", reflect.ValueOf(c), &out, 0)
 	return out
+}
+
+var pristine = map[string]*search.Constraint{}
+
+// pristineOf is a constraint of kind k that is never handed to Query: what a
+// freshly made constraint must still look like after the call.
+func pristineOf(k Kons) *search.Constraint {
+	c, ok := pristine[k.Name]
+	if !ok {
+		c = k.Make()
+		pristine[k.Name] = c
+	}
+	return c
+}
+
+// eqExported is the allocation-free fast path of the comparison: it reports
+// whether the exported state reachable from a and b is equal (same rules as
+// dumpValue). Only when it says no are the two dumps made, for the message.
+func eqExported(a, b reflect.Value, depth int) bool {
+	if depth > 40 {
+		return true
+	}
+	if a.Kind() != b.Kind() {
+		return false
+	}
+	switch a.Kind() {
+	case reflect.Ptr, reflect.Interface:
+		if a.IsNil() || b.IsNil() {
+			return a.IsNil() == b.IsNil()
+		}
+		return eqExported(a.Elem(), b.Elem(), depth+1)
+	case reflect.Struct:
+		t := a.Type()
+		if t != b.Type() {
+			return false
+		}
+		if t == refType {
+			return a.Interface().(blob.Ref) == b.Interface().(blob.Ref)
+		}
+		if t.ConvertibleTo(timeType) {
+			ta, tb := a.Convert(timeType).Interface().(time.Time), b.Convert(timeType).Interface().(time.Time)
+			return ta.Equal(tb) && ta.IsZero() == tb.IsZero()
+		}
+		for i := 0; i < t.NumField(); i++ {
+			if t.Field(i).PkgPath != "" {
+				continue
+			}
+			if !eqExported(a.Field(i), b.Field(i), depth+1) {
+				return false
+			}
+		}
+		return true
+	case reflect.Slice, reflect.Array:
+		if a.Len() != b.Len() {
+			return false
+		}
+		for i := 0; i < a.Len(); i++ {
+			if !eqExported(a.Index(i), b.Index(i), depth+1) {
+				return false
+			}
+		}
+		return true
+	case reflect.Map:
+		if a.Len() != b.Len() {
+			return false
+		}
+		for _, k := range a.MapKeys() {
+			bv := b.MapIndex(k)
+			if !bv.IsValid() || !eqExported(a.MapIndex(k), bv, depth+1) {
+				return false
+			}
+		}
+		return true
+	case reflect.Func, reflect.Chan, reflect.UnsafePointer:
+		return a.IsNil() == b.IsNil()
+	case reflect.String:
+		return a.String() == b.String()
+	case reflect.Bool:
+		return a.Bool() == b.Bool()
+	case reflect.Int, reflect.Int8, reflect.Int16, reflect.Int32, reflect.Int64:
+		return a.Int() == b.Int()
+	case reflect.Uint, reflect.Uint8, reflect.Uint16, reflect.Uint32, reflect.Uint64, reflect.Uintptr:
+		return a.Uint() == b.Uint()
+	case reflect.Float32, reflect.Float64:
+		return a.Float() == b.Float()
+	}
+	return fmt.Sprint(a) == fmt.Sprint(b)
+}
+
+// diffTop compares the fields of the SearchQuery struct itself.
+func diffTop(a, b *search.SearchQuery) string {
+	switch {
+	case a.Expression != b.Expression:
+		return "Expression"
+	case a.Constraint != b.Constraint:
+		return "Constraint(pointer)"
+	case a.Limit != b.Limit:
+		return "Limit"
+	case a.Sort != b.Sort:
+		return "Sort"
+	case a.Around != b.Around:
+		return "Around"
+	case a.Continue != b.Continue:
+		return "Continue"
+	case a.Describe != b.Describe:
+		return "Describe(pointer)"
+	}
+	return ""
 }
 
 // Mutation describes the first difference between the caller's query before
@@ -172,10 +280,16 @@ func (w *World) takeMut() *Mutation {
 	return m
 }
 
+// sharedObjs: constraint objects that are deliberately reused between calls,
+// each with a never-used twin showing what it must keep looking like. After a
+// mutation has been recorded the twin is set to nil: one report per sequence.
+var sharedObjs = map[*search.Constraint]*search.Constraint{}
+
 // shared returns k with Make handing out one and the same *Constraint.
 func shared(k Kons) Kons {
-	c := k.Make()
+	c, twin := k.Make(), k.Make()
 	k.Make = func() *search.Constraint { return c }
+	sharedObjs[c] = twin
 	return k
 }
 
@@ -192,6 +306,7 @@ var reuseAroundLimits = []int{1, 2, -1}
 // the mutation, if any, is left in w.mut for the caller.
 func (w *World) CheckReuse(k Kons, s search.SortType) (st ReuseStats, f *Failure) {
 	kr := shared(k)
+	defer delete(sharedObjs, kr.Make())
 	tag := func(f *Failure, step string) *Failure {
 		if f != nil {
 			f.What = "one *Constraint reused across requests, step [" + step + "]: " + f.What
